@@ -623,3 +623,15 @@ func (s *Sim) Close() {
 	}
 	s.wg.Wait()
 }
+
+// Poke wakes every WaitFor so that it re-evaluates its predicate (for predicates that also look
+// at state outside the log).
+func (s *Sim) Poke() { s.mu.Lock(); s.cond.Broadcast(); s.mu.Unlock() }
+
+// MarkConnected tells the simulator that a link between a and b exists on port (for tests that
+// announce an inbound connection with SendRaw).
+func (s *Sim) MarkConnected(port uint8, a, b string) {
+	s.mu.Lock()
+	s.conns[key(port, a, b)] = &connState{connected: true}
+	s.mu.Unlock()
+}
